@@ -4,10 +4,12 @@ Engine E4 (simulated Courier transport, real CourierServer / CourierClient /
 RemoteObject / RemoteIterator / RemoteIteratorQueue code) with real threads.
 Oracle: the same expression evaluated locally (lazy and eager twin).
 
-Chunk modes: 'mixed' (expression / chain / iterator / async_iter / concurrent / shutdown
-cases drawn per index) and 'scen' (scenario cases that need a forced overlap of server
-handlers or a server life cycle: cached call under concurrent clients, concurrent inserts
-into a full LazyFn cache, cached call with a by-value pickled callable, restart).
+Chunk modes: 'mixed' (expression / chain / iterator / async_iter / bounded iteration /
+concurrent / shutdown cases drawn per index) and 'scen' (scenario cases that need a forced
+overlap of server handlers, a server life cycle or a fast client clock: cached call under
+concurrent clients, concurrent inserts into a full LazyFn cache, cached call with a
+by-value pickled callable, restart, liveness of a healthy server; the last one and the
+bounded iteration live in vlib/c14w3.py).
 Mechanism keys of the scenario / input classes are only given when the case belongs to the
 class AND the observed signature is the one of the root cause (see _expr_mechanism,
 _exc_elem_mechanism, case_async_iter and the scen_* functions); everything else keeps a
@@ -37,8 +39,18 @@ RULE = (
     'constructor is held until the callers overlap) | (2-3 concurrent inserts into a full, '
     'harness-reduced LazyFn cache, the eviction victim hash held until they overlap) | (cached call '
     'whose callable / argument is pickled by value, requested 2-4 times) | (start / stop / start / '
-    'stop life cycles of a CourierServer with evaluations in between). Values include exception '
-    'INSTANCES (returned or yielded, never raised). '
+    'stop life cycles of a CourierServer with evaluations in between) | (a healthy server and a client '
+    'whose clock runs 240-360x faster: 7-18 calls through an unpickled RemoteIteratorQueue / RemoteObject '
+    'handle with or without a CourierClient instance held by the process, each call shorter than the '
+    'heartbeat threshold and all together longer; or one evaluation of 0.3-0.6 / 1.15-1.45 thresholds). '
+    'Iterator cases include bounded iteration dequeue_as_iterator(num_steps) / async_dequeue_as_iterator'
+    '(num_steps) over a remote queue (0-12 elements, num_steps <, =, > elements, server-side buffer '
+    'unbounded or 1-3, queue served from a local object or made by async_iter) against the same iteration '
+    'over a local queue: elements, end signal, producer released or blocked. Values include exception '
+    'INSTANCES (returned or yielded, never raised); RAISED exceptions include classes carrying attributes '
+    '(code in {0..6, 4.0, "x", None} as constructor argument, instance attribute, class attribute or method; '
+    'errno; args of several shapes) and stdlib exceptions with a code (xml ParseError / ExpatError of 9 '
+    'malformed documents) or other attributes (JSONDecodeError, UnicodeDecodeError, CalledProcessError, OSError). '
     'Non-trivial = expression depth >= 2 or the expression raises or a lazy result / remote object / '
     'iterator is involved; distinct = hash of the case description')
 ASSUMPTIONS = [
@@ -48,13 +60,19 @@ ASSUMPTIONS = [
     'values are compared after the pickle round trip by ==; exception instances occurring as values are compared by (type, str)',
     'scenario cases reach into the server process (same process): the LazyFn cache is cleared before / after, its maxsize is reduced by the harness for the eviction scenario and restored, the fire-and-forget thread pool of the server is wrapped to keep the futures it would drop',
     'overlap of server handlers is forced by user callables (constructor / __hash__) that wait on an event; the event is released when all callers arrived or 0.4 s after the first one (so a serialising implementation is never blocked); a verdict is only derived from counted evaluations / returned values, never from the expiry',
+    'bounded iteration: the end state of the producer is read from counters after the consumer ended (released = its thread / pool task returned; blocked = the buffer is full, the queue is not stopped and the producer holds one element more than it has put), never from a waiting time; a producer left blocked is released by the harness (maybe_stop) at the end of the case',
+    'liveness scenario: only the CLIENT side of the library sees the fast clock (courier_utils.time, courier_utils.asyncio.sleep and the deadlines of the transport stand-in are scaled; nothing on the server reads these: a CourierServer without `clients` never writes the worker registry, courier_server keeps its own clock); the server callables sleep in real time. Controls of the same scenario (client instance held / evaluation shorter than the threshold) run under the same dilation and must pass. A differing case is only judged when the transport log shows that every heartbeat of the case (plus one sent by the harness after the error) was answered within 20 client seconds (the probe deadline of the library is 30) and, for call sequences, every call within half the threshold; otherwise the case is inconclusive (machine too slow for the dilation)',
     'a queue is called dead (async_iter) from its state: the enqueue task finished with an exception while the queue recorded neither an exception nor an enqueuer nor exhaustion; no deadline is involved',
 ]
 REQUIRED = ['expr_cases', 'expr_raising', 'async_cases', 'chain_ops', 'remote_objects',
             'iterator_cases', 'queue_cases', 'concurrent_cases', 'shutdown_cases', 'inflight_shutdown_cases',
             'transport_calls', 'exc_valued_results', 'exc_valued_streams', 'async_iter_cases',
             'async_iter_construction_failures', 'scen_cached_concurrent', 'scen_lru_race',
-            'scen_ident_cached', 'scen_ident_control', 'scen_restart', 'restart_equivalence_checks']
+            'scen_ident_cached', 'scen_ident_control', 'scen_restart', 'restart_equivalence_checks',
+            'expr_raising_with_code_attr', 'expr_raising_code_4',
+            'bounded_iter_sync', 'bounded_iter_async', 'bounded_iter_bound_reached',
+            'bounded_iter_server_queue_bounded',
+            'liveness_judged_no_client_held', 'liveness_judged_long_eval', 'liveness_judged']
 CHUNK_TIMEOUT_S = {'quick': 150, 'thorough': 1500}
 
 
@@ -68,12 +86,22 @@ def plan(tier, seed):
   return specs
 
 
+class _Exc(tuple):
+  """('exc', type name, message) + the `code` attribute of the exception (never compared)."""
+  code = None
+
+
 def _outcome(fn):
   from vlib import c14lib
   try:
     return ('ok', c14lib.norm(fn()))
   except BaseException as e:  # pylint: disable=broad-exception-caught
-    return ('exc', type(e).__name__, str(e))
+    out = _Exc(('exc', type(e).__name__, str(e)))
+    try:
+      out.code = getattr(e, 'code', None)
+    except Exception:  # pylint: disable=broad-exception-caught
+      pass
+    return out
 
 
 def _is_excval(v):
@@ -81,14 +109,34 @@ def _is_excval(v):
   return isinstance(v, c14lib.ExcVal)
 
 
+_CODE4 = 'remote-exception-with-code-4-becomes-timeout'
+
+
+def _carries_code_4(outcome):
+  """Input class: the expression RAISES (locally) an exception whose attribute `code` == 4."""
+  code = getattr(outcome, 'code', None)
+  try:
+    return outcome[0] == 'exc' and not callable(code) and bool(code == 4)
+  except Exception:  # pylint: disable=broad-exception-caught
+    return False
+
+
 def _expr_mechanism(local, remote, default):
-  """Input class 'the value IS an exception instance' + 'the client raised exactly it'."""
+  """Input class 'the value IS an exception instance' + 'the client raised exactly it', or
+  input class 'the raised exception carries code == 4' + 'the client raised its own TimeoutError'."""
+  if (_carries_code_4(local) and remote[0] == 'exc' and remote[1] == 'TimeoutError'
+      and remote[2].startswith('Try longer timeout on')):
+    return _CODE4
   if local[0] == 'ok' and _is_excval(local[1]) and remote[0] == 'exc':
     ltype, lmsg = local[1]
     if remote[2] == lmsg and (remote[1] == ltype or
                               (ltype == 'StopIteration' and remote[1] == 'StopAsyncIteration')):
       return 'exception-valued-result-raised'
   return default
+
+
+_KIND_OF = {'exception-valued-result-raised': 'exception_value_raised_by_client',
+            _CODE4: 'raised_exception_replaced_by_timeout'}
 
 
 class _RecPool:
@@ -166,14 +214,17 @@ def case_expr(ctx, env, rng, cid):
   ctx.count('expr_cases')
   if local[0] == 'exc':
     ctx.count('expr_raising')
+    if getattr(local, 'code', None) is not None:
+      ctx.count('expr_raising_with_code_attr')
+    if _carries_code_4(local):
+      ctx.count('expr_raising_code_4')
   if local[0] == 'ok' and _is_excval(local[1]):
     ctx.count('exc_valued_results')
   ctx.case(('expr', spec, use_async), depth >= 2 or local[0] == 'exc')
   case = {'kind': 'expr', 'cid': cid}
   if not _same(local, remote):
     mech = _expr_mechanism(local, remote, 'remote-eval-differs')
-    ctx.violation('exception_value_raised_by_client' if mech != 'remote-eval-differs'
-                  else 'remote_differs_from_local', case,
+    ctx.violation(_KIND_OF.get(mech, 'remote_differs_from_local'), case,
                   {'spec': spec, 'local': repr(local), 'remote': repr(remote),
                    'async': use_async}, mechanism=mech)
   if cid % 50 == 11:
@@ -290,9 +341,12 @@ def case_iterators(ctx, env, rng, cid):
   case = {'kind': 'iter', 'cid': cid}
   kind = rng.choice(['remote_iterator', 'remote_iterator_async', 'queue_get',
                      'queue_get_batch', 'queue_async', 'object_iter',
-                     'async_iter', 'async_iter'])
+                     'async_iter', 'async_iter', 'bounded_iter', 'bounded_iter'])
   if kind == 'async_iter':
     return case_async_iter(ctx, env, rng, cid, n, fail_at)
+  if kind == 'bounded_iter':
+    from vlib import c14w3
+    return c14w3.case_bounded_iter(ctx, env, rng, cid)
   elems = _gen_elems(rng) if rng.random() < 0.3 else None
   if elems is not None:
     fail_at = None
@@ -573,8 +627,7 @@ def case_concurrent(ctx, env, rng, cid):
       local = _outcome(lambda: c14lib.eval_eager(spec))
       if not _same(local, remote):
         mech = _expr_mechanism(local, remote, 'remote-eval-differs-concurrent')
-        ctx.violation('exception_value_raised_by_client' if not mech.startswith('remote-eval')
-                      else 'concurrent_remote_differs', case,
+        ctx.violation(_KIND_OF.get(mech, 'concurrent_remote_differs'), case,
                       {'spec': spec, 'local': repr(local), 'remote': repr(remote)},
                       mechanism=mech)
   ctx.case(('concurrent', specs), True)
@@ -966,7 +1019,12 @@ def scen_restart(ctx, env, rng, cid):
       pass
 
 
-_SCENARIOS = [scen_cached_concurrent, scen_lru_race, scen_ident_cached, scen_restart]
+def scen_liveness(ctx, env, rng, cid):
+  from vlib import c14w3
+  return c14w3.scen_liveness(ctx, env, rng, cid)
+
+
+_SCENARIOS = [scen_cached_concurrent, scen_lru_race, scen_ident_cached, scen_restart, scen_liveness]
 
 
 def run_chunk(ctx, spec):
@@ -978,7 +1036,9 @@ def run_chunk(ctx, spec):
     for i in range(spec['n']):
       cid = spec['chunk'] * 100000 + i
       if mode == 'scen':
-        _SCENARIOS[i % len(_SCENARIOS)](ctx, env, rng, cid)
+        scen = _SCENARIOS[i % len(_SCENARIOS)]
+        if spec.get('only') in (None, scen.__name__):   # 'only': debugging aid, never planned
+          scen(ctx, env, rng, cid)
         continue
       r = i % 10
       if r < 4:
